@@ -7,6 +7,7 @@ import (
 	"fmt"
 	"go/ast"
 	"go/parser"
+	"go/types"
 	"os"
 	"regexp"
 	"strconv"
@@ -62,6 +63,9 @@ type Contract struct {
 	Abstract     bool // body not verified (interface / extern)
 	Lemmas       []*Clause
 	Provenance   []string // interface-typed parameters that carry the fidRef they were loaded from
+	Impls        bool     // interface contract: every implementation in /repo is verified against it
+	IfaceType    types.Type
+	IfaceSig     *types.Signature
 }
 
 type Define struct {
@@ -74,7 +78,7 @@ type Define struct {
 	Uninterpreted bool
 }
 
-var headRe = regexp.MustCompile(`^(func|interface|extern|fparam|define|declare|lemma|inline|constglobal|guard|refcount|reflink|reftable|ownfield)\s+(.*)$`)
+var headRe = regexp.MustCompile(`^(func|interface|extern|fparam|define|declare|lemma|inline|constglobal|guard|refcount|reflink|reftable|ownfield|ghostvar)\s+(.*)$`)
 var clauseRe = regexp.MustCompile(`^(requires|ensures|panic_ensures|invariant|decreases|lemma)(\[[A-Za-z0-9, ]*\])?\s*(@[A-Za-z0-9_.\-]+)?\s+(.*)$`)
 
 // ParseContracts reads //@ lines from text (comment-only Go or .spec file).
@@ -119,6 +123,14 @@ func ParseContracts(file, text, pkg string, out *ContractSet) error {
 					out.Contracts[contractKey(kind, pkg, name)] = k
 					out.Order = append(out.Order, contractKey(kind, pkg, name))
 				}
+				cur = nil
+			case "ghostvar":
+				// ghostvar $name type
+				f := strings.Fields(m[2])
+				if len(f) != 2 {
+					return fmt.Errorf("%s: bad ghostvar", where)
+				}
+				out.GhostVars[f[0]] = [2]string{f[1], pkg}
 				cur = nil
 			case "refcount", "reflink", "reftable", "ownfield":
 				// ghost accounting rules, e.g. "refcount fidRef.refs [C05]"
@@ -296,6 +308,8 @@ func ParseContracts(file, text, pkg string, out *ContractSet) error {
 			cur.Results = splitTop(rest, ',')
 		case "ghost":
 			cur.Ghost = append(cur.Ghost, rest)
+		case "impls":
+			cur.Impls = true
 		case "provenance":
 			cur.Provenance = append(cur.Provenance, splitTop(rest, ',')...)
 		case "wrapper":
@@ -422,6 +436,7 @@ type GhostRule struct {
 }
 
 type ContractSet struct {
+	GhostVars    map[string][2]string // ghost component -> (type, package)
 	GhostRules   []*GhostRule
 	Guards       []*Guard
 	Contracts    map[string]*Contract
@@ -431,7 +446,7 @@ type ContractSet struct {
 }
 
 func NewContractSet() *ContractSet {
-	return &ContractSet{Contracts: map[string]*Contract{}, Defines: map[string]*Define{}}
+	return &ContractSet{Contracts: map[string]*Contract{}, Defines: map[string]*Define{}, GhostVars: map[string][2]string{}}
 }
 
 // define name(a T, b U) R = expr      |  declare name(a T, b U) R
